@@ -233,10 +233,6 @@ loop:
 			if i+1 >= n {
 				return -1, xerr.Wrap("weight", ErrInvalidSetting)
 			}
-		case valSelectorPercent, valSelectorPercentRoundRobin:
-			if i+1 >= n {
-				return -1, xerr.Wrap("select-precent", ErrInvalidSetting)
-			}
 		case valKillDate:
 			if i+8 >= n {
 				return -1, xerr.Wrap("killdate", ErrInvalidSetting)
